@@ -408,7 +408,8 @@ def _order(o):
 class Tracer:
     """Context in which stress_tensor.py / density.py run on symbols."""
 
-    def __init__(self):
+    def __init__(self, level="deep"):
+        self.level = level
         self.st = importlib.import_module("gbasis.evals.stress_tensor")
         self.dens = importlib.import_module("gbasis.evals.density")
         self.P = PSym()
@@ -425,8 +426,62 @@ class Tracer:
             raise TraceError("unknown deriv_type %r" % (deriv_type,))
         return PhiArr(_order(orders))
 
+    # ---- "shallow" level: the three functions of density.py that stress_tensor.py imports are replaced
+    # by their documented meaning (used only when density.py itself cannot be traced, e.g. after a refactoring
+    # to einsum; property C06 is what ties those functions to their documentation) ----
+    def _chk(self, dm, basis, points, transform):
+        if dm is not self.P or basis is not self.basis or points is not self.points or transform is not self.transform:
+            raise TraceError("a density.py function was called with different matrix / basis / points / transform")
+
+    def _sym_arr(self, terms):
+        out = np.empty((NPTS,), dtype=object)
+        for p in range(NPTS):
+            acc = Lin()
+            for c, o1, o2 in terms:
+                acc = acc + Lin.sym(p, o1, o2) * c
+            out[p] = acc
+        return out
+
+    def _sh_rdm(self, orders_one, orders_two, dm, basis, points, transform=None, deriv_type="general"):
+        self._chk(dm, basis, points, transform)
+        return self._sym_arr([(1, _order(orders_one), _order(orders_two))])
+
+    def _sh_deriv_density(self, orders, dm, basis, points, transform=None, deriv_type="general"):
+        self._chk(dm, basis, points, transform)
+        L = _order(orders)
+        terms = []
+        for l in np.ndindex(*(x + 1 for x in L)):
+            c = math.comb(L[0], l[0]) * math.comb(L[1], l[1]) * math.comb(L[2], l[2])
+            terms.append((c, tuple(int(x) for x in l), tuple(a - int(b) for a, b in zip(L, l))))
+        return self._sym_arr(terms)
+
+    def _sh_laplacian(self, dm, basis, points, transform=None, deriv_type="general"):
+        self._chk(dm, basis, points, transform)
+        terms = []
+        for k in range(3):
+            e = tuple(1 if i == k else 0 for i in range(3))
+            e2 = tuple(2 * x for x in e)
+            terms += [(1, e2, (0, 0, 0)), (2, e, e), (1, (0, 0, 0), e2)]
+        return self._sym_arr(terms)
+
+    SHALLOW = {"evaluate_deriv_reduced_density_matrix": "_sh_rdm", "evaluate_deriv_density": "_sh_deriv_density",
+               "evaluate_density_laplacian": "_sh_laplacian"}
+
     def __enter__(self):
         self.saved = (self.st.np, self.dens.np, self.dens.evaluate_deriv_basis)
+        self.saved_st = {}
+        if self.level == "shallow":
+            # every name stress_tensor.py imported from density.py must be one of the three documented ones
+            for name in dir(self.st):
+                f = getattr(self.st, name)
+                if callable(f) and getattr(f, "__module__", None) == self.dens.__name__ and name not in self.SHALLOW:
+                    raise TraceError("stress_tensor.py uses density.%s, whose meaning the shallow tracer does not know" % name)
+            self.st.np = NPProxy()
+            for name, meth in self.SHALLOW.items():
+                if hasattr(self.st, name):
+                    self.saved_st[name] = getattr(self.st, name)
+                    setattr(self.st, name, getattr(self, meth))
+            return self
         # the names stress_tensor.py calls must be the functions of density.py (not re-implemented copies)
         for name in ("evaluate_deriv_reduced_density_matrix", "evaluate_deriv_density", "evaluate_density_laplacian"):
             f = getattr(self.st, name, None)
@@ -439,6 +494,8 @@ class Tracer:
 
     def __exit__(self, *exc):
         self.st.np, self.dens.np, self.dens.evaluate_deriv_basis = self.saved
+        for name, f in self.saved_st.items():
+            setattr(self.st, name, f)
         return False
 
     def call(self, fname, alpha, beta, transform, **kw):
@@ -488,10 +545,10 @@ SPECIAL_BETA = [0]
 CASES = [(a, b) for b in [None] + SPECIAL_BETA for a in [None] + SPECIAL_ALPHA]
 
 
-def trace_all():
+def trace_all(level="deep"):
     """Returns list of dict(alpha, beta, stress, force, hess, hess_symm) in the order of CASES."""
     res = []
-    with Tracer() as tr:
+    with Tracer(level) as tr:
         for (a, b) in CASES:
             per_tf = []
             for tf in (None, Sentinel("transform")):
@@ -528,7 +585,7 @@ def trace_all():
             d["alpha"], d["beta"] = a, b
             res.append(d)
     # default parameter values: alpha=1, beta=0
-    with Tracer() as tr:
+    with Tracer(level) as tr:
         tr.transform = None
         for fname, key, shape in (("evaluate_stress_tensor", "stress", (3, 3)), ("evaluate_ehrenfest_force", "force", (3,)),
                                   ("evaluate_ehrenfest_hessian", "hess", (3, 3))):
@@ -582,8 +639,8 @@ Local Open Scope nat_scope.
 """
 
 
-def render(res):
-    out = [HEADER, "Definition trace_table : list trace_case := [\n"]
+def render(res, level="deep"):
+    out = [HEADER, "(* trace level: %s *)\n" % level, "Definition trace_table : list trace_case := [\n"]
     items = []
     for r in res:
         items.append("  mkcase %s %s\n    %s\n    %s\n    %s\n    %s" % (
@@ -613,10 +670,15 @@ def main():
     """python trace_stress.py <out.v> <out.json> ; exit 0 = traced, 3 = trace failed (fail-closed file written)."""
     out_v, out_json = sys.argv[1], sys.argv[2]
     try:
-        res = trace_all()
-        text, status, js = render(res), 0, {"ok": True, "cases": to_json(res)}
+        try:
+            res, level, note = trace_all("deep"), "deep", None
+        except TraceError as exc:
+            note = "deep trace (through density.py) failed: %s" % exc
+            res, level = trace_all("shallow"), "shallow"
+        text, status, js = render(res, level), 0, {"ok": True, "level": level, "note": note, "cases": to_json(res)}
     except TraceError as exc:
-        text, status, js = render_failed(str(exc)), 3, {"ok": False, "error": str(exc)}
+        msg = "%s; shallow trace failed: %s" % (note, exc)
+        text, status, js = render_failed(msg), 3, {"ok": False, "error": msg}
     for path, content in ((out_v, text), (out_json, json.dumps(js, indent=0))):
         tmp = path + ".tmp%d" % os.getpid()
         old = None
